@@ -11,6 +11,7 @@ import (
 	"io"
 	"math/rand"
 	"os"
+	"regexp"
 	"sort"
 	"strings"
 
@@ -37,6 +38,7 @@ type StreamFault struct {
 	Kind string `json:"kind"` // err | eof | flip | seekfail
 	Off  int    `json:"off"`
 	Perm bool   `json:"perm,omitempty"`
+	With bool   `json:"with,omitempty"` // err: deliver the bytes before the offset together with the error (n>0, err)
 	Xor  int    `json:"xor,omitempty"`
 	Nth  int    `json:"nth,omitempty"` // seekfail: which Seek call fails (0-based)
 }
@@ -127,9 +129,23 @@ func (s *simReader) Read(p []byte) (int, error) {
 		}
 	}
 	// stop before an error offset so that the error is met exactly there
-	for _, f := range s.faults {
+	for i := range s.faults {
+		f := &s.faults[i]
 		if f.Kind == "err" && f.Off > s.pos && f.Off < s.pos+n {
 			n = f.Off - s.pos
+			if f.With {
+				// the io.Reader contract allows n > 0 together with a non-EOF error
+				copy(p, s.data[s.pos:s.pos+n])
+				s.pos += n
+				s.fired["err"]++
+				s.fired["n>0 with error"]++
+				if f.Perm {
+					s.dead = true
+				} else {
+					f.Off = -1
+				}
+				return n, errInjected
+			}
 		}
 	}
 	copy(p, s.data[s.pos:s.pos+n])
@@ -176,6 +192,10 @@ type Spec struct {
 	Chunkings [][]int       `json:"chunkings"`
 	EOFWith   bool          `json:"eof_with,omitempty"`
 	Faults    []StreamFault `json:"faults,omitempty"`
+	// B2/F2: a second input of the same scenario that shares a long prefix with the first but
+	// declares another format (whatever detection remembers about the first must not answer for it)
+	B2 string `json:"b2,omitempty"`
+	F2 string `json:"f2,omitempty"`
 }
 
 func decodeSpec(sc *core.Scenario) (*Spec, error) {
@@ -441,6 +461,22 @@ func (Engine) Generate(prop string, verifSeed int64, tier string, idx int) *core
 			}
 			buf.WriteString("}")
 			b = buf.Bytes()
+			// the twin: same bytes up to the declaration, another format
+			f2 := readable[(r.Intn(len(readable)-1)+1+indexOf(readable, f))%len(readable)]
+			if b2, err := gen.RenderSafe(f2, d, indent); err == nil {
+				var top2 map[string]json.RawMessage
+				if json.Unmarshal(b2, &top2) == nil {
+					var buf2 bytes.Buffer
+					buf2.WriteString(`{"zz_padding":"` + pad + `"`)
+					for _, k := range []string{"bomFormat", "specVersion", "spdxVersion"} {
+						if v, ok := top2[k]; ok {
+							fmt.Fprintf(&buf2, ",%q:%s", k, v)
+						}
+					}
+					buf2.WriteString("}")
+					sp.B2, sp.F2 = base64.StdEncoding.EncodeToString(buf2.Bytes()), f2
+				}
+			}
 		}
 	case k < 18:
 		sp.Kind = "truncate-all"
@@ -460,7 +496,7 @@ func (Engine) Generate(prop string, verifSeed int64, tier string, idx int) *core
 		}
 		switch r.Intn(4) {
 		case 0:
-			sp.Faults = append(sp.Faults, StreamFault{Kind: "err", Off: off, Perm: r.Intn(2) == 0})
+			sp.Faults = append(sp.Faults, StreamFault{Kind: "err", Off: off, Perm: r.Intn(2) == 0, With: r.Intn(3) == 0})
 		case 1:
 			sp.Faults = append(sp.Faults, StreamFault{Kind: "eof", Off: off})
 		case 2:
@@ -476,6 +512,15 @@ func (Engine) Generate(prop string, verifSeed int64, tier string, idx int) *core
 	sc.Sched = verifsim.Config{Seed: seed, Policy: "serial", MaxSteps: 20000000, MapOrder: "random"}
 	sc.Spec = encodeSpec(sp)
 	return sc
+}
+
+func indexOf(xs []string, x string) int {
+	for i, v := range xs {
+		if v == x {
+			return i
+		}
+	}
+	return 0
 }
 
 func tvFile() []byte {
@@ -552,8 +597,14 @@ func docHash(d *sbom.Document) string {
 		return "nil"
 	}
 	s := gen.Dump(d)
+	if strings.Contains(s, "spdxdocs/protobom-") {
+		// an SPDX document without namespace gets a generated (entropy dependent) identifier
+		s = uuidRe.ReplaceAllString(s, "UUID")
+	}
 	return gen.HashHex(s)
 }
+
+var uuidRe = regexp.MustCompile(`[0-9a-f]{8}-[0-9a-f]{4}-[0-9a-f]{4}-[0-9a-f]{4}-[0-9a-f]{12}`)
 
 var prepared bool
 
@@ -580,6 +631,15 @@ func (Engine) Execute(sc *core.Scenario) *core.Result {
 				outs = append(outs, judge(res, sp, data[:off], nil, false, []StreamFault{{Kind: "eof-at", Off: off}}, off < len(data)))
 			}
 			return
+		}
+		if sp.B2 != "" {
+			defer func() {
+				d2, _ := base64.StdEncoding.DecodeString(sp.B2)
+				sp2 := *sp
+				sp2.F, sp2.Kind = sp.F2, "same-prefix-twin"
+				outs = append(outs, judge(res, &sp2, d2, nil, false, nil, false))
+				res.Probes["second input sharing a long prefix with the first"]++
+			}()
 		}
 		var first string
 		for ci, ch := range sp.Chunkings {
@@ -682,6 +742,9 @@ func judge(res *core.Result, sp *Spec, data []byte, chunks []int, eofWith bool, 
 	dt, dv, isJSON := declared(sr.data)
 	if o.err == nil && o.f != "" && isJSON {
 		f := o.f
+		if f.Version() != "" && strings.Count(f.Version(), ".") == 1 && f.Major()+"."+f.Minor() != f.Version() {
+			res.Violate("sniff:declared:"+fm, fmt.Sprintf("reported format %q: Major() %q and Minor() %q do not make up Version() %q", f, f.Major(), f.Minor(), f.Version()))
+		}
 		if f.Type() != dt || f.Version() != dv || f.Encoding() != formats.JSON {
 			res.Violate("sniff:declared:"+fm, fmt.Sprintf("SniffReader reported %q (type %q version %q encoding %q) but the input's top-level declaration says type %q version %q", f, f.Type(), f.Version(), f.Encoding(), dt, dv))
 		}
